@@ -26,6 +26,10 @@ def _run(ctx, ncases):
   for c in range(ncases):
     k = int(rng.integers(0, 4))
     flags = sorted(rng.choice(DISABLE, size=k, replace=False).tolist())
+    if rng.random() < 0.35:
+      # exactly one of the two passive-force bits (with both set passive() returns early on the host: a different code path)
+      one = str(rng.choice(["spring", "damper"]))
+      flags = sorted(set(f for f in flags if f not in ("spring", "damper")) | {one})
     energy = rng.random() < 0.3
     integ = str(rng.choice(["Euler", "implicitfast"]))
     wb, sp = models.random_tree(rng, nbody=int(rng.integers(2, 5)), geom_types=["sphere", "capsule", "box"], spread=0.35, sites=True, joint_types=("free", "hinge", "slide"))
@@ -37,7 +41,12 @@ def _run(ctx, ncases):
       extra += f'<equality><connect body1="{sp.bodies[0]}" body2="{sp.bodies[1]}" anchor="0 0 0"/></equality>'
     flagxml = "<option><flag " + " ".join(f'{f}="disable"' for f in flags) + (' energy="enable"' if energy else "") + "/></option>"
     xml = models.wrap(wb, option=f'timestep="0.004" integrator="{integ}" iterations="100" tolerance="1e-10"', extra=extra).replace("<option ", flagxml + "\n  <option ", 1)
-    xml = xml.replace('type="hinge"', 'type="hinge" damping="0.3" stiffness="1.5" springref="0.2" frictionloss="0.1" limited="true" range="-0.6 0.6"')
+    # linear or polynomial (k k1 k2 / b b1 b2) joint stiffness and damping: the SPRING / DAMPER bits must gate all coefficients
+    poly = rng.random() < 0.5 or (('spring' in flags) != ('damper' in flags))
+    xml = xml.replace('type="hinge"', 'type="hinge" ' + ('damping="0.3 0.2 0.1" stiffness="1.5 0.8 0.4"' if poly else 'damping="0.3" stiffness="1.5"')
+                      + ' springref="0.2" frictionloss="0.1" limited="true" range="-0.6 0.6"')
+    if poly:
+      xml = xml.replace('type="slide"', 'type="slide" damping="0 0.3 0" stiffness="0 0 2.0"')   # polynomial terms only, zero linear coefficient
     try:
       mjm = mujoco.MjModel.from_xml_string(xml)
     except ValueError as e:
@@ -100,7 +109,7 @@ RULE = ("random trees over a floor with a clamped motor, a position actuator, se
 
 
 def correspondence(ctx):
-  acc = _run(ctx, 60 if ctx.thorough else 12)
+  acc = _run(ctx, 90 if ctx.thorough else 30)
   return result(acc, RULE)
 
 
